@@ -52,8 +52,8 @@ Theorem C13_enc_partition_independent_lzma1 : forall (PS : Type) (parse : PS -> 
   (match expected with Some ex => ex = ops_total body | None => True end) ->
   (match preset with Some plen => Z.min plen dict | None => 0 end) + ops_total body <= U32_MAX ->
   l1_new PS normal bt4 dict nice preset expected ps0 = Ok s0 ->
-  l1_run PS parse s0 (body ++ [OpFinish]) [] = Ok (s1, res) ->
-  l1_run PS parse s0 (body' ++ [OpFinish]) [] = Ok (s1', res') ->
+  l1_run PS parse s0 (body ++ [WoFinish]) [] = Ok (s1, res) ->
+  l1_run PS parse s0 (body' ++ [WoFinish]) [] = Ok (s1', res') ->
   rsyms (l1_tr _ s1) = rsyms (l1_tr _ s1') /\ l1_ps _ s1 = l1_ps _ s1'.
 Proof. exact enc_partition_independent_lzma1. Qed.
 Print Assumptions C13_enc_partition_independent_lzma1.
@@ -71,8 +71,8 @@ Theorem C13_enc_partition_independent_lzma2 : forall (PS : Type) (parse : PS -> 
   ops_ok body -> ops_ok body' -> no_finish body -> no_finish body' -> no_flush body -> no_flush body' ->
   ops_total body = ops_total body' -> ops_total body <= 4611686018427387904 ->
   l2_new_repaired PS normal bt4 dict nice preset None ps0 = Ok s0 ->
-  l2_run PS parse chunkc s0 (body ++ [OpFinish]) [] = Ok (s1, res) ->
-  l2_run PS parse chunkc s0 (body' ++ [OpFinish]) [] = Ok (s1', res') ->
+  l2_run PS parse chunkc s0 (body ++ [WoFinish]) [] = Ok (s1, res) ->
+  l2_run PS parse chunkc s0 (body' ++ [WoFinish]) [] = Ok (s1', res') ->
   rsyms (l2_tr _ s1) = rsyms (l2_tr _ s1') /\ l2_ps _ s1 = l2_ps _ s1'.
 Proof. exact enc_partition_independent_lzma2. Qed.
 Print Assumptions C13_enc_partition_independent_lzma2.
@@ -110,7 +110,7 @@ Example C13_example :
   let parse := fun (ps : Z) (_ _ : Z) => SMove (fun _ => SEmit 1 false (ps + 1)) in
   match l1_new Z false false 4096 32 None None 0 with
   | Ok s0 =>
-      match l1_run Z parse s0 [OpWrite 300; OpFinish] [], l1_run Z parse s0 [OpWrite 1; OpWrite 0; OpFlush; OpWrite 299; OpFinish] [] with
+      match l1_run Z parse s0 [WoWrite 300; WoFinish] [], l1_run Z parse s0 [WoWrite 1; WoWrite 0; WoFlush; WoWrite 299; WoFinish] [] with
       | Ok (s1, _), Ok (s1', _) => rsyms (l1_tr _ s1) = rsyms (l1_tr _ s1') /\ l1_ps _ s1 = 299 /\ l1_ps _ s1' = 299
       | _, _ => False
       end
@@ -123,7 +123,7 @@ Example C13_example_lzma2 :
   let chunkc := fun (ps : Z) (u : Z) => (u + 5, ps + 1000) in
   match l2_new_repaired Z false false 4096 32 None None 0 with
   | Ok s0 =>
-      match l2_run Z parse chunkc s0 [OpWrite 300; OpFinish] [], l2_run Z parse chunkc s0 [OpWrite 1; OpWrite 0; OpWrite 299; OpFinish] [] with
+      match l2_run Z parse chunkc s0 [WoWrite 300; WoFinish] [], l2_run Z parse chunkc s0 [WoWrite 1; WoWrite 0; WoWrite 299; WoFinish] [] with
       | Ok (s1, _), Ok (s1', _) => rsyms (l2_tr _ s1) = rsyms (l2_tr _ s1') /\ l2_ps _ s1 = 1299 /\ l2_ps _ s1' = 1299
       | _, _ => False
       end
